@@ -151,6 +151,8 @@ def run(module, cfg, spec_dir, files=None, workers=16, timeout=3600, simulate=No
                 else:
                     json.dump(content, f, separators=(",", ":"))
         cmd = ["java", "-XX:+UseParallelGC", "-Xmx" + heap]
+        if workers == 1:
+            cmd += ["-XX:ParallelGCThreads=2", "-XX:CICompilerCount=2", "-XX:TieredStopAtLevel=1"]
         if dfs:
             cmd.append("-Dtlc2.tool.queue.IStateQueue=StateDeque")
         cmd += ["-cp", JAR + ":" + DEPS, "tlc2.TLC", "-workers", str(workers),
